@@ -91,6 +91,11 @@ class Ctx:
         self.env = {}           # per-path scratch for models/stubs
         self.fp_logic = os.environ.get('SYMX_FP_LOGIC', '')
         self._last = None
+        # degraded mode (see explore): solver-guided sampling of single paths
+        self.sample_mode = False
+        self.conc_forks = 0
+        self.rng = None
+        self.degraded = False
 
     # -- per-path reset ----------------------------------------------------
     def begin_path(self, prefix):
@@ -212,8 +217,11 @@ class Ctx:
                 raise InconclusiveError('unknown on branch feasibility')
             can_t = r == z3.sat
         if can_t and can_f:
-            d = mv          # follow the model: no new query needed
-            self.work.append(self.trace + [not d])
+            if self.sample_mode:
+                d = self.rng.random() < 0.5
+            else:
+                d = mv      # follow the model: no new query needed
+                self.work.append(self.trace + [not d])
             self.decisions += 1
         elif can_t:
             d = True
@@ -755,6 +763,17 @@ class SInt:
     def __repr__(self):
         return '<SInt>'
 
+    def __str__(self):
+        # native text formatting needs a real str: hand out a token that
+        # names this term (oracles look it up in ctx.env['int_tokens'])
+        reg = Ctx.cur.env.setdefault('int_tokens', {})
+        for tok, v in reg.items():
+            if v.e.eq(self.e):
+                return tok
+        tok = '\u27e6I%d\u27e7' % len(reg)
+        reg[tok] = self
+        return tok
+
     def __format__(self, spec):
         return format(concretize(self), spec)
 
@@ -806,6 +825,21 @@ def concretize(x, cap=512):
         ctx._m = None
     m = ctx.model()
     v = m.eval(e, model_completion=True).as_signed_long()
+    if ctx.sample_mode:
+        # pin one value, biased towards the boundaries of the range
+        lo, hi = x.lo, x.hi
+        cands = [c for c in (lo, hi, 0, 1, -1, 0x7F, 0x80, 0xFF, lo + 1,
+                             hi - 1, (lo + hi) // 2) if lo <= c <= hi]
+        if hi - lo < (1 << 16):
+            cands.append(ctx.rng.randint(lo, hi))
+        pick = ctx.rng.choice(cands + [v])
+        if pick != v and ctx.check(e == pick) == z3.sat:
+            v = pick
+        ctx.trace.append(('c', v))
+        ctx.solver.add(e == v)
+        ctx._m = None
+        ctx.sampled = True
+        return v
     r = ctx.check(e != v)
     if r == z3.unknown:
         raise InconclusiveError('unknown in concretize')
@@ -814,6 +848,7 @@ def concretize(x, cap=512):
             ctx.sampled = True
         else:
             ctx.work.append(ctx.trace + [('x', excluded + [v])])
+            ctx.conc_forks += 1
         ctx.decisions += 1
     else:
         ctx.forced += 1
@@ -986,7 +1021,7 @@ class PathResult:
 
 def explore(fn, W=64, seed=0, max_paths=200000, deadline=None,
             max_decisions=20000, on_path=None, solver_timeout_ms=120000,
-            want_witness=True):
+            want_witness=True, explode_limit=3000, n_samples=96):
     """Enumerate all feasible paths of harness `fn(ctx)`.
 
     fn returns a z3 Bool / python bool `ok` (property on this path), or None
@@ -1003,16 +1038,36 @@ def explore(fn, W=64, seed=0, max_paths=200000, deadline=None,
       overflow: True if an overflow obligation is violable at this width
     Returns the ctx (statistics) and a flag 'complete'.
     """
+    import random as _random
     ctx = Ctx(W=W, seed=seed, max_decisions=max_decisions,
               solver_timeout_ms=solver_timeout_ms)
+    ctx.rng = _random.Random(seed * 7919 + 17)
     Ctx.cur = ctx
     ctx.work.append([])
     complete = True
-    while ctx.work:
+    samples_left = 0
+    while ctx.work or samples_left > 0:
         if ctx.paths >= max_paths or (deadline and time.time() > deadline):
             complete = False
             break
-        prefix = ctx.work.pop()
+        if not ctx.sample_mode and ctx.conc_forks > explode_limit:
+            # Value-level forking explodes (the code pushes symbolic data
+            # through something the proxies can only concretise, e.g. a C
+            # function).  Degrade: drop the worklist and run a fixed number
+            # of solver-guided single paths with boundary-biased value
+            # choices.  The run is then NOT exhaustive and says so.
+            ctx.work = []
+            ctx.sample_mode = True
+            ctx.degraded = True
+            ctx.sampled = True
+            samples_left = n_samples
+        if ctx.sample_mode:
+            if samples_left <= 0:
+                break
+            samples_left -= 1
+            prefix = []
+        else:
+            prefix = ctx.work.pop()
         ctx.begin_path(prefix)
         res = {'kind': 'ok', 'verdict': None, 'witness': None, 'cex': None,
                'overflow': False, 'exc': None, 'notes': None, 'ok': None}
@@ -1081,5 +1136,6 @@ def explore(fn, W=64, seed=0, max_paths=200000, deadline=None,
             if stop:
                 complete = False
                 break
-    ctx.complete = complete and not ctx.work
+    ctx.complete = complete and not ctx.work and not ctx.degraded
+    ctx.finished = complete and not ctx.work
     return ctx
